@@ -481,7 +481,7 @@ impl<'c, 'd> ProgGen<'c, 'd> {
         // The value of a type alias created in this group that no later definition has used yet.
         let mut pending_alias: Option<Rc<V>> = None;
         for _ in 0..n {
-            let mut kind = self.ch.pick(14);
+            let mut kind = self.ch.pick(15);
             if pending_alias.is_some() && self.ch.chance(2, 3) {
                 kind = 100;
             }
@@ -524,6 +524,7 @@ impl<'c, 'd> ProgGen<'c, 'd> {
                     if self.ch.chance(1, 2) { self.mutual_defs() } else { self.recursive_with_later_helper() }
                 }
                 9 => self.polymorphic_def(fuel - 1).map(|d| vec![d]),
+                14 if self.cfg.recursion => self.recursive_type_function(goal, fuel - 1),
                 10 if self.cfg.forward_aliases => self.forward_alias_defs(),
                 // A definition of the goal type: a candidate for the body of the group, whose
                 // type is then written with whatever alias the annotation picked.
@@ -673,6 +674,34 @@ impl<'c, 'd> ProgGen<'c, 'd> {
         Some((f, sast::arrow(S::Int, ret), sast::lam(&n, Some(S::Int), body)))
     }
 
+    /// A recursive *type-level* function followed by a definition whose annotation calls it:
+    /// `f : (int -> type) = (n : int) => if n <= 0 then T else f (n - 1); x : f 2 = <a T>`.
+    /// (`f` is not the last definition of its group, and the type of `x` needs `f` unfolded
+    /// through its recursion.)
+    fn recursive_type_function(&mut self, goal: &Rc<V>, fuel: usize) -> Option<Vec<(String, S, S)>> {
+        let t = if matches!(&**goal, V::Int | V::Bool) && self.ch.chance(2, 3) { goal.clone() } else { Rc::new(if self.ch.chance(1, 2) { V::Int } else { V::Bool }) };
+        let ts = self.quote_s(&t)?;
+        let other = if matches!(&*t, V::Int) { S::Bool } else { S::Int };
+        let inner = self.make(&t, fuel.min(2))?;
+        let (f, n, x) = (self.fresh_name(), self.fresh_name(), self.fresh_name());
+        let k = self.ch.pick(4) as i64;
+        let rec = sast::app(sast::var(&f), S::Paren(Box::new(sast::bin(Op::Sub, sast::var(&n), sast::lit(1)))));
+        // The recursion is bounded for every argument (also for the ones a perturbation may put
+        // there): above a limit the other type, at or below zero T, in between one step down.
+        let limit = sast::bin(Op::Gt, sast::var(&n), sast::lit(k + 5));
+        let base = sast::bin(Op::Le, sast::var(&n), sast::lit(0));
+        let body = if self.ch.chance(1, 2) {
+            sast::ite(limit, other, sast::ite(base, ts.clone(), rec))
+        } else {
+            sast::ite(base, ts.clone(), sast::ite(limit, other, rec))
+        };
+        self.features.insert("recursive type-level function used in an annotation");
+        Some(vec![
+            (f.clone(), sast::arrow(S::Int, S::Type), sast::lam(&n, Some(S::Int), body)),
+            (x, sast::app(sast::var(&f), sast::lit(k)), inner),
+        ])
+    }
+
     fn mutual_defs(&mut self) -> Option<Vec<(String, S, S)>> {
         let ev = self.fresh_name();
         let od = self.fresh_name();
@@ -781,6 +810,13 @@ pub struct Program {
     /// The type the generator built the program at, as a surface term.
     pub ty: S,
     pub features: BTreeSet<&'static str>,
+}
+
+/// Programs with a recursive type-level function are not perturbed: a perturbed recursion in a
+/// *type* makes the type checker diverge (legitimately), and each such case costs a watchdog
+/// period or a stack exhaustion.
+pub fn perturbation_safe(p: &Program) -> bool {
+    !p.features.contains("recursive type-level function used in an annotation")
 }
 
 /// Generate one closed program. `goal_kind`: 0 = int, 1 = bool, 2 = any small type.
